@@ -238,6 +238,13 @@ def litOf : Expr → Option Value
   | .lit v => some v
   | _ => none
 
+/-- the AND-merge of `extract_range_predicate`: a bound the left conjunct lacks is taken from the
+right conjunct together with *its* inclusive flag (`l.start = r.start; l.inclusive_start =
+r.inclusive_start`, same for the end); a bound both have is the left one -/
+def mergeRange (a b : Range) : Range :=
+  ⟨if a.lo.isNone then b.lo else a.lo, if a.hi.isNone then b.hi else a.hi,
+   if a.lo.isNone then b.incLo else a.incLo, if a.hi.isNone then b.incHi else a.incHi⟩
+
 /-- `extract_range_predicate` -/
 def extractRange (c : Nat) : Expr → Option Range
   | .bin op l r =>
@@ -278,9 +285,7 @@ def extractRange (c : Nat) : Expr → Option Range
       else none
     | .and =>
       match extractRange c l, extractRange c r with
-      | some a, some b =>
-        some ⟨if a.lo.isNone then b.lo else a.lo, if a.hi.isNone then b.hi else a.hi,
-              if a.lo.isNone then b.incLo else a.incLo, if a.hi.isNone then b.incHi else a.incHi⟩
+      | some a, some b => some (mergeRange a b)
       | some a, none => some a
       | none, some b => some b
       | none, none => none
@@ -328,5 +333,24 @@ def inRangeSql (x : Value) (r : Range) : Bool :=
       | some .lt => true
       | some .eq => r.incHi
       | _ => false)
+
+/-- index-driven WHERE on a single-column index over column 0 (`execute_index_scan` for a Range
+predicate): extract the range, scan, re-check the WHERE clause on the fetched rows unless
+`fullySatisfied`; without an extractable range every position is fetched and re-checked.
+Positions in table order; an evaluation error aborts the query. -/
+def whereScan (keys : List Key) (e : Expr) : Except Err (List Nat) :=
+  let recheck (ps : List Nat) : Except Err (List Nat) :=
+    ps.filterM (fun p =>
+      match keys[p]? with
+      | some k => do
+        let t ← e.tv k
+        pure (t == TV.t)
+      | none => .ok false)
+  match extractRange 0 e with
+  | some r =>
+    let ps := rangeScan (build keys) r.lo r.hi r.incLo r.incHi
+    let sorted := (List.range keys.length).filter (fun p => ps.contains p)
+    if fullySatisfied 0 e r then .ok sorted else recheck sorted
+  | none => recheck (List.range keys.length)
 
 end VibeProof.SecIndex
